@@ -60,6 +60,7 @@ FIRST = {
     'b08-C16': 'caught', 'b09-C17': 'caught', 'b10-C19': 'caught',
     'c05-C05': 'caught', 'c09-C09': 'caught', 'c18-C18': 'caught', 'c20-C20': 'caught',
     'c03-C03': 'missed by C03 (D2 reported it under C02 / C13) -> D2 now also decides C03',
+    'c02-C02': 'missed by C02 (T3 reported it under C17 / C18) -> T1, T3, T3b now also decide C02',
     'c01-C01': 'missed by C01 (the same change as b10, written independently; DC1 reported it under C19) -> DC1 and DC4 now also decide C01',
     'c06-C06': 'missed -> new rule H5 (node metadata is compared by value, never by identity)',
     'c10-C10': 'analysis error only (F6 required a single return) -> F6 result-through-inner-treespec: every result of the transpose family is inner_treespec.unflatten(...)',
